@@ -13,7 +13,8 @@ NEGS = {"NEG_stop_ForcedReach.cfg": ["NEG_ForcedNeverCompletesWithLive"],       
         "NEG_stop_CompleteBeforeJoin.cfg": ["C06_NoDispatchAfterCompletion", "Steps"],
         "NEG_stop_TermIsForced.cfg": ["C06_SignalKinds"],
         "NEG_stop_AwaitsLastWorkerOnly.cfg": ["C06_GracefulWaits"],
-        "NEG_stop_WakeAcceptFirst.cfg": ["C06_GracefulLetsFinish"],      # defect F8: accept thread told to stop before the workers
+        "NEG_stop_WakeAcceptFirst.cfg": ["C06_GracefulLetsFinish"],
+        "NEG_stop_ForcedReachBusy.cfg": ["NEG_ForcedNeverCompletesWithBusy"],  # reachability: forced completes while a worker thread is blocked      # defect F8: accept thread told to stop before the workers
         "NEG_stop_SecondStopHangs.cfg": ["temporal"]}
 
 
@@ -83,6 +84,13 @@ def run(ctx):
         res = ctx.model_check(MOD, cfg, workers=4)
         vlib.require_ok(res, cfg)
         ctx.add_tlc(cfg, res, "liveness: every stop future and the Server future resolve (weak fairness)")
+    for cfg, note in [("MC_stop_busy.cfg", "exhaustive, worker threads may be blocked by a non-yielding handler"),
+                      ("LIVE_stop_busy.cfg", "liveness with a blocked worker thread (it unblocks eventually)"),
+                      ("NEG_stop_ForcedAwaitsWorkersBusy.cfg", "a forced stop that awaits the workers never completes while a worker "
+                       "thread is blocked: the reachability property above distinguishes the two designs")]:
+        res = ctx.model_check(MOD, cfg, workers=4)
+        vlib.require_ok(res, cfg)
+        ctx.add_tlc(cfg, res, note)
     for cfg, exp in NEGS.items():
         ctx.expect_neg(MOD, cfg, exp)
     scs = scenarios(ctx)
